@@ -221,6 +221,12 @@ def handle (toks : List String) : String :=
     let sc := (sched.splitOn ",").filterMap String.toNat?
     let g := Gens.runSched mx P (Gens.initGS (start.toNat?.getD 0) (nthr.toNat?.getD 0)) sc
     "|".intercalate (g.thrs.map fun th => ",".intercalate (th.outs.map toString)) ++ " seq=" ++ toString g.seq
+  | ["RRACE", nthr, sched] =>
+    -- two-step lookup/removal of `route_answer` as extracted, under the given order of shared-state steps
+    let sc := (sched.splitOn ",").filterMap String.toNat?
+    let s := RR.run Gen.routeAnswerKind (RR.init (nthr.toNat?.getD 0)) sc
+    let nm := fun (p : RR.Pc) => match p with | .start => "start" | .found => "found" | .sent => "sent" | .failed => "failed"
+    s!"sent={RR.sentCount s} " ++ ",".intercalate (s.pcs.map nm)
   | "WPATH" :: msgs :: "|" :: evs =>
     let ms : List (Option WP.Bytes) := (msgs.splitOn ",").map fun m => if m == "-" then none else (ofHex m).map (·.map UInt8.toNat)
     let es : List WP.Ev := evs.filterMap fun e =>
